@@ -47,6 +47,8 @@ ASSUMPTIONS = [
     'reference K-values use the package\'s own Gamma / Phi / PCF objects and Chemical.Psat (an independent *flash*, not independent property models)',
     'the x / y specification pairs are only checked for the T / P they fix (the property states nothing else about them)',
     'only the default VLE method (fixed-point) is explored',
+    'the interning caches of thermosteam.equilibrium (BubblePoint/DewPoint/activity-/fugacity-coefficient objects) are cleared before every execution; '
+    'cross-package reuse of interned objects is explored only through the explicit pkg action of c04.reuse (Dortmund <-> ideal on the same Chemical objects)',
     'entropy specifications are not enumerated for mixtures containing a chemical whose third-party entropy model is not the integral of '
     'Cn/T (vc.entropy_model_ok; Benzene: thermo HEOS_FIT integral_over_T is a staircase with 2 J/mol/K steps) -- no solver can match such an S(T)',
 ]
@@ -68,6 +70,11 @@ TOLERANCES = {
 
 def _m(action, obs, **kw):
     return dict(pair=action[1], N=min(obs['nvol'] + bool(obs['light']), 3), light=obs['light'], heavy=obs['heavy'], **kw)
+
+def _norm(action, obs):
+    """('vle','Tp',T,frac) is a (T,P) specification whose pressure was resolved against my own envelope"""
+    if action[1] == 'Tp': return ('vle', 'TP', float(obs['kw']['T']), float(obs['kw']['P']))
+    return action
 
 def check_exact(st, action, obs):
     s = st.s
@@ -260,6 +267,7 @@ def check_TP(st, action, obs, ideal):
 def make_oracle(reference=False, ideal=False, scaling=False):
     def oracle(system, st, action, before, obs):
         if action[0] != 'vle': return
+        action = _norm(action, obs)
         check_exact(st, action, obs)
         check_HS(st, action, obs)
         if reference:
@@ -513,9 +521,62 @@ def _his_actions(n_q, n_t):
     return f
 
 def his_oracle(system, st, action, before, obs):
-    pkg = st.config[0]
+    pkg = st.extra.get('pkg') or st.config[0]
     ideal = pkg.endswith('i')
     make_oracle(reference=(pkg in ('ALC', 'HC') or ideal), ideal=ideal)(system, st, action, before, obs)
+
+# ---- reuse of one stream / of the process-global interned solver objects ------------------------------------------------------
+# Actions: vle calls at IDENTICAL specifications; 'refill' = empty the stream and fill it with another subset of the package
+# (same size, smaller, larger) -- the cached VLE object keeps _nonzero/_index/_K/_V/_T/_P and whatever else it remembers;
+# 'pkg' = continue with the same chemicals under the other package (Dortmund <-> ideal) within the same execution, so the
+# interned BubblePoint/DewPoint/Gamma objects created by the earlier calls are still registered.
+# Sequence rules: the first action is a call; never two non-call actions in a row.
+
+REUSE = {
+    # pkg: (start composition, [refills], other package)
+    'ALC':  ((('Methanol', 'Ethanol'), (1.6, 2.4)),
+             [(('Propanol', '1-Butanol'), (2.2, 1.8)), (('Ethanol', 'Propanol', '1-Butanol'), (1.0, 1.5, 1.5)), (('Methanol', 'Ethanol'), (3.0, 1.0)), (('Propanol',), (4.0,))], 'ALCi'),
+    'ALCi': ((('Methanol', 'Ethanol'), (1.6, 2.4)),
+             [(('Propanol', '1-Butanol'), (2.2, 1.8)), (('Ethanol', 'Propanol', '1-Butanol'), (1.0, 1.5, 1.5)), (('Methanol', 'Ethanol'), (3.0, 1.0)), (('Propanol',), (4.0,))], 'ALC'),
+    'HC':   ((('Hexane', 'Benzene', 'Toluene'), (1.0, 1.5, 1.5)),
+             [(('Heptane', 'Octane', 'Toluene'), (1.5, 1.0, 1.5)), (('Hexane', 'Heptane'), (2.0, 2.0)), (('Hexane', 'Heptane', 'Octane', 'Benzene', 'Toluene'), (0.8, 0.8, 0.8, 0.8, 0.8))], 'HCi'),
+    'HCi':  ((('Hexane', 'Benzene', 'Toluene'), (1.0, 1.5, 1.5)),
+             [(('Heptane', 'Octane', 'Toluene'), (1.5, 1.0, 1.5)), (('Hexane', 'Heptane'), (2.0, 2.0)), (('Hexane', 'Heptane', 'Octane', 'Benzene', 'Toluene'), (0.8, 0.8, 0.8, 0.8, 0.8))], 'HC'),
+    'A':    ((('Water', 'Ethanol'), (2.0, 2.0)), [(('Ethanol', 'Methanol'), (2.0, 2.0)), (('Water', 'Ethanol', 'Methanol'), (1.0, 1.0, 2.0))], 'Ai'),
+    'Ai':   ((('Water', 'Ethanol'), (2.0, 2.0)), [(('Ethanol', 'Methanol'), (2.0, 2.0)), (('Water', 'Ethanol', 'Methanol'), (1.0, 1.0, 2.0))], 'A'),
+}
+# 'Tp' = (T, P) with P at a fraction of the way from MY dew pressure to MY bubble pressure: 0.05 / 0.95 sit just inside the
+# envelope, where a stale dew / bubble point object of another package decides the all-vapour / all-liquid shortcut wrongly
+REUSE_CALLS = [('vle', 'TV', 350., 0.5), ('vle', 'Tp', 350., 0.05), ('vle', 'Tp', 350., 0.95), ('vle', 'TH', 350., 0.5), ('vle', 'PV', 101325., 0.5),
+               ('vle', 'Tp', 350., 0.5), ('vle', 'TP', 350., 101325.), ('vle', 'PH', 101325., 0.5), ('vle', 'TV', 350., 0.03)]
+
+def reuse_configs(system, tier, seed):
+    pk = ['ALC', 'ALCi', 'HC', 'HCi'] if tier == 'quick' else list(REUSE)
+    out = []
+    for pkg in pk:
+        (comp, flows), refills, other = REUSE[pkg]
+        for dist in (('l',) if tier == 'quick' else ('l', 'Sl')):
+            out.append((pkg, comp, flows, dist, (comp, 'reuse', ())))
+    k = seed % len(out)
+    return out[k:] + out[:k]
+
+def reuse_actions(system, st):
+    n = 5 if system.tier == 'quick' else len(REUSE_CALLS)
+    calls = REUSE_CALLS[:n]
+    last = st.extra.get('last_kind')
+    if last is None and st.n_calls == 0: return calls
+    out = list(calls)
+    if last == 'vle':
+        (comp, flows), refills, other = REUSE[st.config[0]]
+        nr = 3 if system.tier == 'quick' else len(refills)
+        out += [('refill', c, f) for c, f in refills[:nr]]
+        cur = st.extra.get('pkg') or st.config[0]
+        out.append(('pkg', other if cur == st.config[0] else st.config[0]))
+    return out
+
+def reuse_oracle(system, st, action, before, obs):
+    st.extra['last_kind'] = action[0]
+    his_oracle(system, st, action, before, obs)
 
 def describe_multi(mg):
     def d(tier):
@@ -534,6 +595,10 @@ SYSTEMS = [
     FlashSystem('c04.ideal.grid', IDEAL.enum_configs, IDEAL.enum_actions, make_oracle(reference=True, ideal=True), 1, 1, describe=describe_multi(IDEAL)),
     FlashSystem('c04.scale', SCALE_GRIDS.enum_configs, SCALE_GRIDS.enum_actions, make_oracle(scaling=True), 1, 1,
                 describe=describe_multi(SCALE_GRIDS), nontrivial=scale_nontrivial),
+    FlashSystem('c04.reuse', reuse_configs, reuse_actions, reuse_oracle, 3, 3,
+                describe=dict(alphabet='5 (quick) / 9 (thorough) calls at identical specifications + refills with another chemical subset (same size, '
+                              'larger, smaller, same set other composition) + switch Dortmund <-> ideal package on the same chemicals',
+                              rule='first action is a call; never two non-call actions in a row')),
     FlashSystem('c04.hist2', his_enum_configs, _his_actions(12, 30), his_oracle, 2, 2,
                 describe=dict(alphabet='first 12 (quick) / all 30 (thorough) calls of HIS_CALLS')),
     FlashSystem('c04.hist3', his_enum_configs, _his_actions(5, 8), his_oracle, 3, 3,
